@@ -321,7 +321,12 @@ static void op_converted(vr::rng &g, const char *tag, const crsd &A, const part 
         bool a = converted_intact(tag, A, rp, cp), b = converted_intact(tag, B, cp, cq);
         if (a) { op_spmv(g, tag, A, rp, cp, g.coin()); op_transpose(tag, A, rp, cp); op_scale_sort(g, tag, A, rp, cp); }
         if (a && b) op_product(tag, A, rp, cp, B, cq);
-        if (a && b) { MOVED = true; op_product(tag, A, rp, cp, B, cq); MOVED = false; }      // converted, then moved with keep_src
+        if (a && b) {      // converted, then moved with keep_src: again only on intact kept sources
+            MOVED = true;
+            bool ka = kept_intact(tag, A, rp, cp), kb = kept_intact(tag, B, cp, cq);
+            if (ka && kb) op_product(tag, A, rp, cp, B, cq);
+            MOVED = false;
+        }
     } catch (...) { VIA = 0; MOVED = false; throw; }
     VIA = 0;
 }
